@@ -599,14 +599,18 @@ static void lin64(const int64_t* in, int64_t* o) {
   o[3] = cd3 + ck7; o[4] = cd3 - ck7;
 }
 
-// returns 1 if all 64 exact samples are inside -512..511
-static int exact_in_range(const uint16_t* b, const uint16_t* q) {
+// returns 1 if all 64 exact samples are inside -512..511; *fit = the lane condition `lanesFit`
+// of Props/C09IdctBlock.lean (every dequantised coefficient within +-8191, every exact first-pass
+// intermediate within +-16383)
+static int exact_in_range_fit(const uint16_t* b, const uint16_t* q, int* fit) {
   int64_t mid[64];
+  *fit = 1;
   for (int c = 0; c < 8; c++) {
     int64_t d[8];
     uint16_t acs = 0;
     for (int r = 0; r < 8; r++) {
       d[r] = (int64_t)(int16_t)b[8 * r + c] * (int64_t)q[8 * r + c];
+      if (d[r] < -8191 || d[r] > 8191) *fit = 0;
       if (r) acs |= b[8 * r + c];
     }
     if (!acs) {
@@ -616,6 +620,9 @@ static int exact_in_range(const uint16_t* b, const uint16_t* q) {
       lin64(d, o);
       for (int r = 0; r < 8; r++) mid[8 * r + c] = fdiv(o[r] + 1024, 2048);
     }
+  }
+  for (int i = 0; i < 64; i++) {
+    if (mid[i] < -16383 || mid[i] > 16383) *fit = 0;
   }
   int ok = 1;
   for (int r = 0; r < 8; r++) {
@@ -633,6 +640,11 @@ static int exact_in_range(const uint16_t* b, const uint16_t* q) {
     }
   }
   return ok;
+}
+
+static int exact_in_range(const uint16_t* b, const uint16_t* q) {
+  int fit;
+  return exact_in_range_fit(b, q, &fit);
 }
 
 static void hex_out(const uint8_t* p, size_t n) {
@@ -693,7 +705,11 @@ static void cmd_idct(char** toks, int n) {
     hex_out(out, 64);
   }
 #endif
-  printf(" inrange=%d\n", exact_in_range(b, q));
+  {
+    int fit = 0;
+    int inr = exact_in_range_fit(b, q, &fit);
+    printf(" inrange=%d fit=%d\n", inr, fit);
+  }
   free(dec);
   free(cb);
   free(qb);
